@@ -102,6 +102,9 @@ func (p *Peer) SendRaw(b []byte) bool {
 func (p *Peer) send(c net.Conn, m wire.Message) {
 	p.wmu.Lock()
 	defer p.wmu.Unlock()
+	if h, ok := m.(*wire.MsgHeaders); ok {
+		p.Sim.noteHeadersSent(p, h)
+	}
 	_, _ = wire.WriteMessageWithEncodingN(c, m, pver, p.Sim.W.Params.Net, wire.WitnessEncoding)
 }
 
